@@ -89,6 +89,11 @@ func buildHistory(c *core.Ctx, prop string, idx int, kind string) *histCase {
 	hc.other("init")
 	hc.add(proto.Op{K: "sql", SQL: "CREATE DATABASE d1"}, opMeta{kind: "other"})
 	hc.add(proto.Op{K: "sql", SQL: "USE d1"}, opMeta{kind: "other"})
+	if idx%4 == 3 {
+		// a database that has handed out many row ids before: keys just
+		// below 2^16, 2^24, 2^31 and close to 2^32
+		hc.add(proto.Op{K: "setlastkey", N: []int{65500, 16777100, 1 << 31, 4294900000, 65530, 255}[(idx/4)%6]}, opMeta{kind: "other"})
+	}
 	flushMode := r.Intn(3) // 0 never, 1 sometimes, 2 after every statement
 	walkLookups := 0
 	observe := func(force bool, every int, n int) {
